@@ -447,3 +447,19 @@ func sortPayload(payload []map[string]interface{}) {
 	})
 
 }
+
+// ResolveRootFields answers the fields of a root selection which the gateway resolves itself:
+// __schema, __type and the __typename of the root type
+func (ir *IntrospectionResolver) ResolveRootFields(rootTypeName string, selectionSet ast.SelectionSet, schema *ast.Schema) map[string]interface{} {
+	result := ir.ResolveIntrospectionFields(selectionSet, schema)
+	for _, f := range common.SelectionSetToFields(ir.applyDirectives(selectionSet), nil) {
+		if f.Name == "__typename" {
+			if result == nil {
+				result = make(map[string]interface{})
+			}
+			result[f.Alias] = rootTypeName
+		}
+	}
+
+	return result
+}
